@@ -191,6 +191,75 @@ def check(ctx):
             ctx.ob("c.supervision", "repass-after-slot", ok, "the token is re-sent without an expired slot: " + w, f.loc(b))
         ctx.sample({"attempt_table": table})
     ctx.anchor("supervision function (calls remove_station)", len(sup), 1)
+    check_slot_expiry(ctx, P)
+    check_candidate_kept(ctx, P, ip, fns)
+    check_any_telegram_verifies(ctx, P, fns)
+    # ---------------- d/e: the pass itself ---------------------------------------------------------
+    check_pass(ctx, P, fns)
+
+
+def check_candidate_kept(ctx, P, ip, fns):
+    """b (repeated candidate): the sender whose first offer was declined is recorded in ActiveIdle and must still be known when it
+    repeats the offer.  Re-entering ActiveIdle *from ActiveIdle* (transition_active_idle) re-creates the state without that record,
+    so no call of transition_active_idle may be made in typestate ActiveIdle."""
+    n = 0
+    for f in fns:
+        for b, c in call_sites(f, lambda c: callee_is(c, "fdl::active::State::transition_active_idle")):
+            n += 1
+            st = states_of(ip.facts_at(f.name, b))
+            where = f
+            if f.kind == "closure" and (not st or st == {"?"}):
+                # a receive callback: the station is in the typestate of the handler that installed it
+                parent = P.get(CR, f.name.rsplit("::{closure", 1)[0])
+                if parent is not None:
+                    ptb = TermBuilder(parent, P)
+                    sts = set()
+                    for pb, pc in call_sites(parent):
+                        if not pc["args"]:
+                            continue
+                        clo = ptb.joperand(pc["args"][-1])
+                        if clo[0] == "agg" and str(clo[1]) == "closure:" + f.name:
+                            sts |= states_of(ip.facts_at(parent.name, pb))
+                    st = sts or {"?"}
+            ok = bool(st) and "ActiveIdle" not in st and "?" not in st
+            ctx.ob("b.accept", "candidate-kept|%s" % f.name.split("::", 3)[-1], ok,
+                   "transition_active_idle() is called in typestate %s: re-entering ActiveIdle from ActiveIdle forgets the recorded candidate "
+                   "predecessor (a repeated token offer would be declined again)" % sorted(st), f.loc(b))
+    ctx.anchor("transition_active_idle call sites", n, 3)
+
+
+def check_any_telegram_verifies(ctx, P, fns):
+    """c (supervision): the token pass counts as verified as soon as *any* complete telegram is heard within the slot - the receive
+    callback of the CheckTokenPass handler must leave CheckTokenPass (transition_active_idle) on every path taken for the first telegram."""
+    n = 0
+    for f in fns:
+        if f.kind == "closure" or not any(True for _ in call_sites(f, lambda c: callee_is(c, "fdl::active::State::transition_pass_token"))) \
+                or not f.name.endswith("do_check_token_pass"):
+            continue
+        for b, c in call_sites(f, lambda c: callee_is(c, "phy::ProfibusPhy::receive_all_telegrams", "phy::ProfibusPhy::receive_telegram")):
+            tb = TermBuilder(f, P)
+            clo = tb.joperand(c["args"][-1])
+            if not (clo[0] == "agg" and str(clo[1]).startswith("closure:")):
+                continue
+            cf = P.get(CR, clo[1][len("closure:"):])
+            if cf is None:
+                continue
+            n += 1
+            marks = {(cb, None): "idle" for cb, cc in call_sites(cf, lambda cc: callee_is(cc, "fdl::active::State::transition_active_idle"))}
+            g = GuardAnalysis(cf, P, marks=marks)
+            bad = []
+            for rb in cf.return_blocks:
+                for fs in g.at(rb):
+                    first = [vs for k, vs in fs.items() if "first_in" in show(k) and k[0] in ("upvar", "deref", "field", "local")]
+                    if first and first[0] == ("in", frozenset([True])) and 0 in g.count_of(fs, "idle"):
+                        bad.append(M.fmt_facts(fs)[:160])
+            ctx.ob("c.supervision", "verified-by-any-telegram", bool(marks) and not bad,
+                   "the first telegram heard after a token pass can be processed without leaving CheckTokenPass (the pass would be repeated and the "
+                   "successor finally removed although the bus was not silent): %s" % "; ".join(bad[:1]), cf.loc(0))
+    ctx.anchor("receive callback of the CheckTokenPass handler", n, 1)
+
+
+def check_slot_expiry(ctx, P):
     # slot expiry definition
     cse = ctx.need_fn(CR, "fdl::active::FdlActiveStation::check_slot_expired")
     if cse is not None:
@@ -202,7 +271,9 @@ def check(ctx):
             return "slot_time" in s_ and "now" in s_ and "last_bus_activity" in s_ and "bits_to_time" not in s_
         ctx.ob("d.pass", "slot-expiry-definition", bool(rets) and all(ok_ret(r) for r in rets),
                "check_slot_expired must compare `now` with last bus activity + slot time on every path, found %s" % [show(r)[:120] for r in rets], cse.loc(0))
-    # ---------------- d/e: the pass itself ---------------------------------------------------------
+
+
+def check_pass(ctx, P, fns):
     passers = [f for f in fns if f.kind != "closure" and any(True for _ in call_sites(f, lambda c: callee_is(c, "fdl::active::State::transition_check_token_pass")))]
     ctx.anchor("function performing the token pass", len(passers), 1)
     for f in passers:
